@@ -296,6 +296,12 @@ class Interp:
             fr.vars[st.name].closure = fr
         elif t is ast.Assert:
             return
+        elif t is ast.With:
+            for item in st.items:
+                ce = item.context_expr
+                if not (isinstance(ce, ast.Call) and isinstance(ce.func, ast.Attribute) and ce.func.attr == 'errstate'):
+                    raise AnalysisError(f"unsupported context manager at {fr.module}.py:{st.lineno}")
+            self.exec_block(fr, st.body)
         else:
             raise AnalysisError(f"unsupported statement {t.__name__} at {fr.module}.py:{st.lineno}")
 
@@ -727,6 +733,11 @@ class Interp:
             return self.neg(v, e.lineno)
         if isinstance(e.op, ast.UAdd):
             return v
+        if isinstance(e.op, ast.Invert):
+            from .npmodel import _to_bool01
+            if isinstance(v, Rat):
+                return 1 - _to_bool01(v)
+            return Box(A.elementwise(self.ctx, lambda x: 1 - _to_bool01(x), [v], kind='bool', origin=e.lineno))
         raise AnalysisError("unary operator")
 
     def neg(self, v, lineno=None):
@@ -876,7 +887,7 @@ class Interp:
             ka = snap(a).kind
             kb = snap(b).kind
             kind = 'int' if (ka == 'int' and kb == 'int' and t is not ast.Div) else 'real'
-            if ka == 'bool' and kb == 'bool' and t is ast.Mult:
+            if ka == 'bool' and kb == 'bool' and t in (ast.Mult, ast.BitOr, ast.BitAnd):
                 kind = 'bool'
             res = A.elementwise(self.ctx, f, [a, b], kind=kind, origin=lineno)
             res = self._keep_affine(t, a, b, res)
@@ -924,6 +935,10 @@ class Interp:
             # non-literal exponent: a finding for the algebraic rules (X5); keep it opaque
             self.events.append(('symbolic-exponent', self.cur_file, lineno))
             return Rat.atom(('powsym', a, b))
+        if t in (ast.BitOr, ast.BitAnd):
+            from .npmodel import _to_bool01
+            x, y = _to_bool01(a), _to_bool01(b)
+            return 1 - (1 - x) * (1 - y) if t is ast.BitOr else x * y
         if t is ast.FloorDiv:
             if a.is_const() and b.is_const():
                 return Rat.const(a.const_value() // b.const_value())
